@@ -430,8 +430,13 @@ class Functor(pg_object.Object, utils.Functor):
             f'positional {arg_phrase} but {len(args)} {was_phrase} given.'
         )
 
+    # NOTE: a bound argument may be stored as an inferential value (`pg.Ref`,
+    # a value from the parent chain): the function receives the value it stands
+    # for, which is also what `self.<arg>` and `sym_init_args` report.
     keyword_args = {
-        k: v for k, v in self._sym_attributes.items()
+        k: (self._sym_attributes.sym_inferred(k)
+            if isinstance(v, base.Inferential) else v)
+        for k, v in self._sym_attributes.items()
         if k in self._specified_args
     }
     assert len(keyword_args) == len(self._specified_args)
